@@ -475,3 +475,150 @@ def validate_model_trace(c, trace, name, module="FlowTrace", want_dir="flow", li
             rejected.append(xs[n])
             xs = xs[n + 1:]
     return accepted, rejected
+
+
+# ------------------------------------------------------------------ histories of spec/GenFS.tla replayed on the real tool
+HP_HEAD = "//go:build cff\n\npackage hp\n\nimport (\n\t\"context\"\n%s\n\t\"go.uber.org/cff\"\n)\n\n"
+HP_FILES = {
+    "a.go": (HP_HEAD % "" +
+             "// A1 and A2 are values of FlowA.\ntype A1 struct{ N int }\n\n// A2 is its result.\ntype A2 struct{ N int }\n\n"
+             "// FlowA doubles its input plus one.\nfunc FlowA(ctx context.Context, n int) (A2, error) {\n\tvar r A2\n\terr := cff.Flow(ctx,\n"
+             "\t\tcff.Params(n),\n\t\tcff.Results(&r),\n\t\tcff.Task(func(n int) A1 { return A1{n + 1} }),\n"
+             "\t\tcff.Task(func(a A1) (A2, error) { return A2{a.N * 2}, nil }),\n\t)\n\treturn r, err\n}\n",
+             "\n// helperA is only in version 2.\nfunc helperA(x int) int { return x + 41 }\n", None),
+    "b.go": (HP_HEAD % "" +
+             "// SumB adds up a slice in parallel.\nfunc SumB(ctx context.Context, xs []int) (int, error) {\n\tout := make([]int, len(xs))\n"
+             "\terr := cff.Parallel(ctx,\n\t\tcff.Concurrency(2),\n\t\tcff.Slice(func(i int, x int) error { out[i] = x * @K@; return nil }, xs),\n\t)\n"
+             "\ts := 0\n\tfor _, v := range out {\n\t\ts += v\n\t}\n\treturn s, err\n}\n",
+             "\n// helperB is only in version 2.\nfunc helperB() string { return \"b\" }\n", ("@K@", "3", "7")),
+    "t_test.go": (HP_HEAD % "\t\"testing\"\n" +
+                  "// T1 is a value of the flow under test.\ntype T1 struct{ S string }\n\nfunc TestFlowT(t *testing.T) {\n\tvar r T1\n"
+                  "\terr := cff.Flow(context.Background(),\n\t\tcff.Results(&r),\n\t\tcff.Task(func() T1 { return T1{\"t\"} }),\n\t)\n"
+                  "\tif err != nil || r.S != \"t\" {\n\t\tt.Fatal(r, err)\n\t}\n}\n",
+                  "\n// helperT is only in version 2.\nfunc helperT() int { return 7 }\n", None),
+}
+
+
+def hp_source(f, v):
+    base, tail, sub = HP_FILES[f]
+    if sub:
+        base = base.replace(sub[0], sub[1] if v == 1 else sub[2])
+    return base + (tail if v == 2 else "")
+
+
+def hp_write(root, srcs):
+    d = os.path.join(root, "hp")
+    os.makedirs(d, exist_ok=True)
+    for f in HP_FILES:
+        with open(os.path.join(d, f), "w") as fh:
+            fh.write(hp_source(f, srcs[f]))
+    with open(os.path.join(d, "plain.go"), "w") as fh:
+        fh.write("package hp\n\n// Plain is a file without directives.\nfunc Plain() int { return 1 }\n")
+
+
+def history_replay(c, cff, n, depth, name="genfs"):
+    """Behaviours of spec/GenFS.tla (TLC's simulator) performed step by step on a real package with the real cff;
+    after every step every output path is compared with the model's `out` ("gen" contents against a reference
+    generation from scratch of the same sources).  Files C17 / C16 violations.  Returns the number of steps."""
+    cfgtext = ('CONSTANTS Files = {"a.go", "b.go", "t_test.go"}  Modes = {"base", "source-map"}  Depth = %d\n'
+               'SPECIFICATION Spec\nINVARIANTS %s\nCHECK_DEADLOCK FALSE\n')
+    # the contract's consequences, exhaustively for short histories
+    c.tlc("GenFS", cfgtext % (3, "FunctionOfInput FreshAfterAll"), name + "-mc", workers=8, timeout=600)
+    r = c.tlc("GenFS", cfgtext % (depth, "FunctionOfInput"), name + "-sim", workers=1, timeout=600,
+              simulate="num=%d" % n, extra=["-depth", str(depth + 3), "-seed", str(c.seed)])
+    hists, seen = [], set()
+    for l in r["output"].splitlines():
+        m = re.match(r'<<"HISTORY", (".*")>>\s*$', l)
+        if m and m.group(1) not in seen:
+            seen.add(m.group(1))
+            hists.append(json.loads(json.loads(m.group(1))))
+    if not hists:
+        raise Inconclusive("TLC simulation of GenFS produced no histories")
+    root = os.path.join(c.scratch, name)
+    render.write_module(root, {})
+    refroot = os.path.join(c.scratch, name + "-ref")
+    render.write_module(refroot, {})
+    refs = {}
+    nh = GenLog.nhash
+
+    def run_cff(rt, mode, files=(), alt=""):
+        cmd = [cff, "-quiet"] + (["-genmode", mode] if mode != "base" else [])
+        for f in files:
+            cmd.append("-file=%s%s" % (f, ("=" + os.path.join(rt, "hp", alt)) if alt else ""))
+        cmd.append("vgen/hp")
+        return subprocess.run(cmd, cwd=rt, env=GOENV, capture_output=True, text=True, timeout=300)
+
+    def ref(f, srcs, mode):
+        key = (tuple(sorted(srcs.items())), mode)
+        if key not in refs:
+            shutil.rmtree(os.path.join(refroot, "hp"), ignore_errors=True)
+            hp_write(refroot, srcs)
+            rr = run_cff(refroot, mode)
+            if rr.returncode != 0:
+                raise Inconclusive("reference generation failed: " + (rr.stdout + rr.stderr)[-400:])
+            refs[key] = {g: nh(os.path.join(refroot, "hp", gen_name(g))) for g in HP_FILES}
+        return refs[key][f]
+
+    real = lambda p: os.path.join(root, "hp", "alt_out.go" if p == "alt_out.go" else gen_name(p.split(">")[0]))
+    steps = 0
+    for hi, hist in enumerate(hists):
+        shutil.rmtree(os.path.join(root, "hp"), ignore_errors=True)
+        srcs = {f: 1 for f in HP_FILES}
+        hp_write(root, srcs)
+        planted = {}
+        for si, st in enumerate(hist):
+            steps += 1
+            before = snapshot(os.path.join(root, "hp"))
+            where = dict(kind="genfs-history", history=[{k: v for k, v in h.items() if k not in ("post", "srcs")} for h in hist[:si + 1]])
+            if st["op"] == "edit":
+                srcs[st["file"]] = 3 - srcs[st["file"]]
+                hp_write(root, srcs)
+            elif st["op"] == "remove":
+                os.remove(real(st["path"]))
+                planted.pop(st["path"], None)
+            elif st["op"] == "plant":
+                text = open(real(st["path"])).read()
+                if st["kind"] == "longer":
+                    text += "\nfunc vOld%d() int { return %d }\n" % (steps, steps)
+                else:
+                    k = text.find("\nimport")
+                    text = text[:k + 1] if k > 0 else text[:len(text) // 2]
+                open(real(st["path"]), "w").write(text)
+                planted[st["path"]] = nh(real(st["path"]))
+            else:
+                rr = run_cff(root, st["mode"], st["files"], st["alt"])
+                if rr.returncode != 0:
+                    c.violation("C14", "cff rejected a well-formed package (GenFS history %d step %d): %s" % (hi, si, (rr.stdout + rr.stderr)[-300:]), where)
+                    break
+                for p in list(planted):
+                    if st["post"][p][0] != "old":
+                        planted.pop(p)
+            # the directory against the model
+            bad = False
+            for p, want in st["post"].items():
+                rp = real(p)
+                have = nh(rp) if os.path.exists(rp) else None
+                if want[0] == "absent":
+                    ok, prop, what = have is None, "C16", "a path that is not a documented output of this invocation was written"
+                elif want[0] == "gen":
+                    ok = have is not None and have == ref(want[1], want[2], want[3])
+                    prop, what = ("C16", "documented output path missing after a successful run") if have is None else \
+                                 ("C17", "the output is not what a generation from scratch of the same sources writes: it depends on the history")
+                else:
+                    ok, prop, what = have == planted.get(p), "C16", "a file that is not an output of this invocation was modified"
+                if not ok:
+                    bad = True
+                    c.violation(prop, "%s: %s (GenFS history %d, step %d: %s)" % (what, os.path.basename(rp), hi, si + 1,
+                                json.dumps({k: v for k, v in st.items() if k not in ("post", "srcs")})), where)
+            after = snapshot(os.path.join(root, "hp"))
+            outs = {os.path.basename(real(p)) for p in st["post"]}
+            stray = sorted(p for p in set(before) | set(after) if before.get(p) != after.get(p) and p not in outs and st["op"] == "gen")
+            if stray:
+                bad = True
+                c.violation("C16", "cff touched %s, which is no output path (GenFS history %d, step %d)" % (stray, hi, si + 1), where)
+            if bad:
+                break
+    c.cov["genfs_histories"] = c.cov.get("genfs_histories", 0) + len(hists)
+    c.cov["genfs_steps"] = c.cov.get("genfs_steps", 0) + steps
+    c.cov["traces_validated_against_impl"] = c.cov.get("traces_validated_against_impl", 0) + len(hists)
+    return steps
